@@ -1,3 +1,4 @@
+import Ebu.Proofs.Log
 import Ebu.Spec.Flow
 import Ebu.Props.C03Facts
 import Ebu.Proofs.SaveConc
@@ -93,5 +94,16 @@ theorem flow_resume_shape : Ebu.Flow.resumeShape = true := by decide +kernel
 
 /-- OBLIGATION: the live handler: handler first, then inside one `saveMu` critical section read `bus.lastOffset` under `storeMu` and save it, unless nothing was persisted yet -/
 theorem flow_resume_live_shape : Ebu.Flow.resumeLiveShape = true := by decide +kernel
+
+/-! ### KNOWN FINDING: positions kept in the SQLite store for events kept in a MemoryStore (`WithSubscriptionStore`) -/
+
+/-- KNOWN FINDING (C12-sqlite-subscription-store-rewrites-foreign-offsets): the SQLite store keeps saved positions as
+integers, so the memory store's offset of record 3 comes back as "3"; the memory store compares offsets as strings and
+finds nothing after "3" although records 4, 5 and 6 follow the saved offset – a resumed subscription never sees them -/
+theorem sqlite_positions_lose_memory_events :
+    ((Ebu.Log.Sql.save {} "s" (Ebu.Log.fmt20 3)).map (fun s => s.load "s")) = some (Ebu.Log.decimal 3) ∧
+    (Ebu.Log.mem6.stream (Ebu.Log.fmt20 3)).map (·.2) = [4, 5, 6] ∧
+    Ebu.Log.mem6.stream (Ebu.Log.decimal 3) = [] ∧ (Ebu.Log.mem6.read (Ebu.Log.decimal 3) 0).1 = [] :=
+  ⟨Ebu.Log.sqlite_saved_offset_not_verbatim.1, Ebu.Log.sqlite_positions_lose_memory_events⟩
 
 end Ebu.Props.C12
